@@ -1,0 +1,9 @@
+//go:build verif
+
+// Contracts for package consts, read by /verif/govc (comment-only file).
+
+package consts
+
+//@ func (OutboundIndex).IsReserved
+//@   vpure
+//@   trusted
